@@ -593,6 +593,15 @@ func (r *Run) judgeRedeem(st Step, code *Cred, cs *ClientSpec, res *Resp, sentRe
 		r.probeAll("after the replay of " + code.Name())
 		return
 	}
+	if r.Fault.fired && !r.Fault.mustRefuse() {
+		// a sentinel answer injected at a read (e.g. "no PKCE / OIDC session") is judged as that state: what the request
+		// then does is not an unexpected-failure question and not pinned down by the credential's real state
+		if tokens {
+			r.onRedeemSuccess(st, code, cs, res)
+		}
+		g.Unspec = true
+		return
+	}
 	// live code: collect every reason the statements give for refusal
 	var mustRefuse []string // property tags
 	classInvalidGrant := false
@@ -681,6 +690,9 @@ func (r *Run) judgeRedeem(st Step, code *Cred, cs *ClientSpec, res *Resp, sentRe
 		}
 	}
 	g.FailedRedeems++
+	if res.Status >= 500 {
+		g.Unspec = true // an internal failure after the code handler committed leaves the grant in a state the ledger cannot know
+	}
 }
 
 // mustSucceedOK: positive expectations are only asserted when lifetimes are in a sane relation (DESIGN §4).
